@@ -211,7 +211,8 @@ def body_changes() -> list[str]:
 
 
 # properties about the gateway's receive / send path: the generated handler bodies must equal the model's handlers
-TIE_PROPS = {"C03", "C04", "C05", "C06", "C07", "C08", "C10", "C11", "C12", "C19"}
+# (C13: its reachability theorems - every registry the handlers can build lies in RegOK - speak about the same handlers)
+TIE_PROPS = {"C03", "C04", "C05", "C06", "C07", "C08", "C10", "C11", "C12", "C13", "C19"}
 TIE_MOD = "AioMySensors.Lemmas.BodiesEq"
 # properties about the stream transports: the generated StreamTransport methods must equal the model's Transport.*
 STREAM_TIE_PROPS = {"C03", "C17"}
